@@ -28,6 +28,7 @@ install(e1, hdr, inc, man)
 extra_dist(files=['README', 'docs/guide.md'], dirs=['licenses'])
 vend = find_files('vendor/*.bin', dist=False)
 uncached = find_files('nocache/*.c', extra='*.hpp', cache=False)
+build_step('stamp.txt', cmd=['touch', 'stamp.txt'], extra_deps=['assets/', 'lone.dep'])
 """
 FILES = {
     # file -> must it be in the archive?  (None: either way is acceptable)
@@ -43,6 +44,8 @@ FILES = {
     'unrelated.txt': False,
     'vendor/v.bin': False,            # found twice (the second time from the cache), both times dist=False
     'nocache/n.c': True, 'nocache/n.hpp': True,      # an uncached search with extra=
+    'lone.dep': True,                 # extra_deps given by name: a file, and a directory (the build file names the directory
+    'assets/pic.png': None,           # itself; its content is not referenced)
 }
 C_MAIN = ('main.c', 'private.c', 'sub/sp.c')
 
@@ -136,7 +139,7 @@ class DistArchive(Bounded):
             r = run(conf + [un + '/p-1.0', b2])
             if r.returncode != 0:
                 return self.fail(case, raw, 'unpacked_archive_configures', stderr=r.stderr[-500:])
-            r = run(['make', '-C', b2, 'e1', 'sub/subprog', 'out.txt', 'data/copy me.txt'])
+            r = run(['make', '-C', b2, 'e1', 'sub/subprog', 'out.txt', 'data/copy me.txt', 'stamp.txt'])
             if r.returncode != 0:
                 return self.fail(case, raw, 'unpacked_archive_builds_the_distributed_targets', output=(r.stdout + r.stderr)[-600:])
             return True
